@@ -127,8 +127,7 @@ def run(rep):
               'match_path is not applied to request.path', app, dv.match_st)
     # (ii) method mismatch
     upd = dv.calls_stmt('update_methods', dv.ds_var)
-    mm_t = [n.id for n in cfg.nodes if n.kind == 'branch' and ((norm(n.test) == 'not %s' % dv.ma_var and n.pol is True) or
-                                                               (norm(n.test) == dv.ma_var and n.pol is False))]
+    mm_t = [nid for nid, t_, p_ in cfg.branches() if norm(t_) == dv.ma_var and p_ is False]
     exec_nodes = cfg.nodes_of(dv.exec_st)
     ok = bool(mm_t) and bool(upd) and cfg.must_pass(cfg.nodes_of_all(upd), mm_t, head, normal_only=True) and \
         not (set(exec_nodes) & cfg.reach(mm_t, avoid=head)) and \
@@ -144,10 +143,8 @@ def run(rep):
               'match_method is not applied to request.method', app, dv.method_st)
     # (iii) from execute back to the loop header
     addx = [s for s in dv.calls_stmt('add_exception', dv.ds_var) if norm(s.value.args[0]) == dv.ret_var]
-    brk_f = [n.id for n in cfg.nodes if n.kind == 'branch' and 'is_breaking' in norm(n.test) and dv.ret_var in norm(n.test) and n.pol is False]
-    http_t = [n.id for n in cfg.nodes if n.kind == 'branch' and
-              ((norm(n.test) == 'not isinstance(%s, HTTPException)' % dv.ret_var and n.pol is False) or
-               (norm(n.test) == 'isinstance(%s, HTTPException)' % dv.ret_var and n.pol is True))]
+    brk_f = [nid for nid, t_, p_ in cfg.branches() if 'is_breaking' in norm(t_) and dv.ret_var in norm(t_) and p_ is False]
+    http_t = [nid for nid, t_, p_ in cfg.branches() if norm(t_) == 'isinstance(%s, HTTPException)' % dv.ret_var and p_ is True]
     src = exec_nodes
     for label, nodes in (('dispatch_state.add_exception(ret)', cfg.nodes_of_all(addx)), ('"is_breaking" false', brk_f),
                          ('result is an HTTPException', http_t)):
